@@ -8,7 +8,7 @@ collisions in a GNU chain, bloom-filter false positives — plus cursor displace
 queries.  Reference model: the table itself scanned linearly; the hashed part is the set of
 indices reachable by walking the raw bucket/chain words (elfraw).
 """
-from ..core import env, runner, forkpool, elfraw, elfedit
+from ..core import env, runner, forkpool, elfraw, elfedit, elfbuild
 from ..core.prng import substream, run_seed, digest as pdigest, h64
 from ..core.simdisk import SimStream
 from ..core.canon import canon, exc_obs, jsonable
@@ -41,6 +41,26 @@ def _prep(name):
     return out
 
 
+def _data(t):
+    if t.get('synth') is not None:
+        return elfbuild.build(substream(t['synth'], 'image'))[0]
+    return env.corpus_bytes(t['file'])
+
+
+def _prep_synth(task):
+    seed, k = task
+    sd = h64(seed, 'C03-synth', k)
+    data, desc = elfbuild.build(substream(sd, 'image'))
+    raw = elfraw.Raw(data)
+    out = []
+    for s in raw.sections:
+        if s['sh_type'] in (elfraw.SHT['HASH'], elfraw.SHT['GNU_HASH']):
+            kind = 'sysv' if s['sh_type'] == elfraw.SHT['HASH'] else 'gnu'
+            out.append(dict(file='synthetic#%d' % k, synth=sd, sec=s['_index'], kind=kind, symtab=s['sh_link'], off=s['sh_offset'],
+                            size=s['sh_size'], desc=desc))
+    return out
+
+
 def prepare(prop, tier, seed, only=None):
     _ST.clear()
     files = [r['name'] for r in env.corpus_index() if r['size'] <= (96 * 1024 if tier == 'quick' else 600 * 1024)]
@@ -52,10 +72,17 @@ def prepare(prop, tier, seed, only=None):
     _ST['tables'] = tables
     _ST['per_table'] = 240 if tier == 'quick' else 2400
     _ST['tier'] = tier
+    # synthetic images (own writer): table shapes no corpus image has
+    synth = []
+    nsynth = 150 if tier == 'quick' else 3000
+    for k in range(nsynth):
+        synth.extend(_prep_synth((seed, k)))
+    _ST['synth'] = synth
+    _ST['per_synth'] = 16 if tier == 'quick' else 40
 
 
 def n_runs(prop, tier):
-    return len(_ST['tables']) * _ST['per_table']
+    return len(_ST['tables']) * _ST['per_table'] + len(_ST['synth']) * _ST['per_synth']
 
 
 def _alt_same_hash(name, kind):
@@ -93,8 +120,13 @@ def _model(data, t):
 
 
 def gen_spec(prop, tier, seed, index):
-    t = _ST['tables'][index // _ST['per_table']]
-    k = index % _ST['per_table']
+    nc = len(_ST['tables']) * _ST['per_table']
+    if index >= nc:
+        t = _ST['synth'][(index - nc) // _ST['per_synth']]
+        k = (index - nc) % _ST['per_synth']
+    else:
+        t = _ST['tables'][index // _ST['per_table']]
+        k = index % _ST['per_table']
     rs = run_seed(seed, 'C03', tier, index)
     return dict(engine=ENGINE, table=t, variant=k, seed=rs)
 
@@ -107,7 +139,7 @@ def execute_spec(spec):
     from elftools.elf.elffile import ELFFile
     from elftools.elf.hash import ELFHashTable, GNUHashTable
     t = spec['table']
-    data = env.corpus_bytes(t['file'])
+    data = _data(t)
     m = _model(data, t)
     r = substream(spec['seed'], 'queries')
     kind = t['kind']
@@ -306,7 +338,7 @@ def execute_spec(spec):
     nontrivial = bool(reachable) and len(queries) > 0
     return dict(spec=out_spec, violations=violations, digest=pdigest(log), nontrivial=nontrivial,
                 nt_digest=pdigest(t['file'], t['sec'], events, queries, via_segment), evaluations=1, sim_time=stream.clock.seq,
-                faults=faults, probes={**probes, 'queries': len(queries), 'via_segment': int(via_segment), 'tables_' + kind: 1,
+                faults=faults, probes={**probes, 'synthetic_table_runs': int(t.get('synth') is not None), 'queries': len(queries), 'via_segment': int(via_segment), 'tables_' + kind: 1,
                                        'cursor_displacements': sum(1 for d in displace if d is not None)}, sample=None)
 
 
@@ -357,7 +389,8 @@ def describe(prop):
 
 def extra_coverage(prop, tier, agg):
     s = gen_spec(prop, tier, 0, 1)
-    return dict(samples=[s], hash_tables=len(_ST['tables']),
+    return dict(samples=[s], hash_tables=len(_ST['tables']), synthetic_hash_tables=len(_ST['synth']),
+                synthetic_shapes=sorted(set((t['desc']['cls'], t['desc']['little'], t['desc']['bloom_size'], t['desc']['nbuckets']) for t in _ST['synth']))[:40],
                 tables=[(t['file'], t['kind']) for t in _ST['tables']][:80],
                 interleaving_measure='query order x cursor displacement between queries')
 
